@@ -1274,7 +1274,12 @@ func (self *Aof) LoadAndInit() error {
 
 	_ = self.WaitFlushAofChannel()
 	if len(appendFiles) > 0 {
-		go self.rewriteAofFiles()
+		// the start-up compaction covers the files that have just been loaded; which ones is decided
+		// now, not when the goroutine gets to run: by then a follower may have rotated its log to files
+		// whose records are not applied yet, and they would be judged by a lock table that lags them
+		if aofFilenames, ferr := self.findRewriteAofFiles(); ferr == nil && len(aofFilenames) > 0 {
+			go self.rewriteAofFilesOf(aofFilenames)
+		}
 	}
 	self.inited = true
 	self.slock.Log().Infof("Aof init finish")
@@ -1319,7 +1324,12 @@ func (self *Aof) Load() error {
 
 	_ = self.WaitFlushAofChannel()
 	if len(appendFiles) > 0 {
-		go self.rewriteAofFiles()
+		// the start-up compaction covers the files that have just been loaded; which ones is decided
+		// now, not when the goroutine gets to run: by then a follower may have rotated its log to files
+		// whose records are not applied yet, and they would be judged by a lock table that lags them
+		if aofFilenames, ferr := self.findRewriteAofFiles(); ferr == nil && len(aofFilenames) > 0 {
+			go self.rewriteAofFilesOf(aofFilenames)
+		}
 	}
 	self.slock.Log().Infof("Aof load finish")
 	return nil
@@ -2020,6 +2030,11 @@ func (self *Aof) WaitRewriteAofFiles() error {
 }
 
 func (self *Aof) rewriteAofFiles() {
+	self.rewriteAofFilesOf(nil)
+}
+
+// rewriteAofFilesOf compacts the given files, or, without a list, the files below the current one.
+func (self *Aof) rewriteAofFilesOf(aofFilenames []string) {
 	self.glock.Lock()
 	if self.isRewriting || self.closed {
 		self.glock.Unlock()
@@ -2039,8 +2054,14 @@ func (self *Aof) rewriteAofFiles() {
 		self.glock.Unlock()
 	}()
 
-	aofFilenames, err := self.findRewriteAofFiles()
-	if err != nil || len(aofFilenames) == 0 {
+	if aofFilenames == nil {
+		var err error
+		aofFilenames, err = self.findRewriteAofFiles()
+		if err != nil {
+			return
+		}
+	}
+	if len(aofFilenames) == 0 {
 		return
 	}
 
